@@ -2,6 +2,7 @@ import Verif.Model.RemoveUnused
 import Verif.Proofs.RemoveUnused
 import Verif.Proofs.FlattenPipeline
 import Verif.Proofs.FlattenImport
+import Verif.Proofs.RemoveUnusedDangling
 
 /-!
 # C06 — RemoveUnused removes exactly what nothing refers to (model of the removal phases)
@@ -85,5 +86,44 @@ theorem phases_never_create_shared_sections (fc : Facts) (x : Flatten.Ext) (o : 
     (s s' : Flatten.St) (h : Flatten.stripPointersAndOAIGen fc x o fuel s = .ok s')
     (hn : Proofs.FlattenBase.NoShared s.doc) : Proofs.FlattenBase.NoShared s'.doc :=
   Proofs.FlattenPhases.stripPointersAndOAIGen_inv Proofs.FlattenPipeline.noShared_docInv fc x o fuel s s' h hn
+
+/-- every definition designated by a schema `$ref` of the document exists (`$ref`s of the form
+    `#/definitions/<name>`: what a successful `namePointers` leaves, C02) -/
+def NoDangling (f : Facts) (x : Ext) (d : J) : Prop := Proofs.RemoveUnusedDangling.NoDangling f x d
+
+/-- C06, third clause, for the removal phases: no `$ref` starts to dangle.  Dropping the shared
+    sections, one removal pass and the whole removal loop keep `NoDangling`, whatever the names -/
+theorem removal_creates_no_dangling (f : Facts) (x : Ext) (fuel : Nat) (d d' : J)
+    (h : removeUnused f x fuel d = .ok d') (hn : NoDangling f x d) : NoDangling f x d' :=
+  Proofs.RemoveUnusedDangling.removeUnused_noDangling f x fuel d d' h hn
+
+theorem singlePass_creates_no_dangling (f : Facts) (x : Ext) (d : J) (hn : NoDangling f x d) :
+    NoDangling f x (singlePass f x d).1 :=
+  Proofs.RemoveUnusedDangling.singlePass_noDangling f x d hn
+
+theorem removeShared_creates_no_dangling (f : Facts) (x : Ext) (d : J) (hn : NoDangling f x d) :
+    NoDangling f x (removeShared d) :=
+  Proofs.RemoveUnusedDangling.removeShared_noDangling f x d hn
+
+/-- the same for the last phase of the Flatten model -/
+theorem removeUnused_phase_creates_no_dangling (fc : Facts) (x : Flatten.Ext) (s s' : Flatten.St)
+    (h : Flatten.removeUnused fc x s = .ok s')
+    (hn : NoDangling fc { refName := Flatten.refName x } s.doc) :
+    NoDangling fc { refName := Flatten.refName x } s'.doc := by
+  unfold Flatten.removeUnused at h
+  obtain ⟨d, hd, h⟩ := OutcomeM.bind_eq_ok.1 h
+  simp only [OutcomeM.pure_eq_ok] at h
+  subst h
+  exact removal_creates_no_dangling fc _ _ s.doc d hd hn
+
+/-- the hypothesis is not vacuous, and the conclusion is not trivial: a used definition that refers to
+    another keeps it alive -/
+example : NoDangling Facts.reference { refName := fun r => if r = "#/definitions/a" then some "a" else if r = "#/definitions/b" then some "b" else none }
+    (.obj [("paths", .obj [("/p", .obj [("get", .obj [("responses", .obj [("200", .obj [
+        ("description", .str "ok"), ("schema", .obj [("$ref", .str "#/definitions/a")])])])])])]),
+      ("definitions", .obj [("a", .obj [("properties", .obj [("x", .obj [("$ref", .str "#/definitions/b")])])]),
+                            ("b", .obj [("type", .str "string")]), ("unused", .obj [])])]) := by
+  unfold NoDangling Proofs.RemoveUnusedDangling.NoDangling
+  decide
 
 end C06
